@@ -264,6 +264,20 @@ func main() {
 	run.Set("stress_trials", trials)
 	run.Set("stress_response_frames_injected", frames)
 	fragments(run, &established)
+	// a refused second call with the FContext of a request in flight must not
+	// cost that request its response (NATS refuses such calls)
+	for k := 0; k < 3; k++ {
+		dr := rig.DuplicateContextTrial(nats)
+		run.Eval(1)
+		if dr.Bad != "" {
+			run.Violation("C06:duplicate-context-refused:nats:in-flight-request-lost", dr.Bad, map[string]interface{}{"second_call_error": dr.SecondErr})
+			break
+		} else if dr.Inconclusive != "" {
+			run.Inconclusive("duplicate-context trial: " + dr.Inconclusive)
+		} else {
+			run.Distinct("duplicate-context nats")
+		}
+	}
 	os.Exit(run.Finish())
 }
 
@@ -280,25 +294,26 @@ func fragments(run *ev.Run, established *int32) {
 		seed    int64
 		blocked bool
 		reopen  bool
+		poke    bool
 	}
 	var par, ser []spec
 	for i := 0; i < trials; i++ {
 		ns := []int{1, 2, 3, 4, 8, 16, 40, 64}
-		sp := spec{ns[rng.Intn(len(ns))], rng.Int63(), i%3 == 0, i%4 == 1}
-		if sp.blocked {
+		sp := spec{ns[rng.Intn(len(ns))], rng.Int63(), i%3 == 0, i%4 == 1, i%5 == 2}
+		if sp.blocked || sp.poke {
 			ser = append(ser, sp)
 		} else {
 			par = append(par, sp)
 		}
 	}
 	var mu sync.Mutex
-	chunks, splits, bytes, blockedN, reopenN := 0, 0, 0, 0, 0
+	chunks, splits, bytes, blockedN, reopenN, pokeN := 0, 0, 0, 0, 0, 0
 	var fragEstablished int32
 	one := func(sp spec) {
 		if atomic.LoadInt32(&fragEstablished) >= 3 {
 			return // each established stall costs seconds; three witnesses are enough
 		}
-		r := rig.FragmentTrial(sp.n, sp.seed, sp.blocked, sp.reopen)
+		r := rig.FragmentTrial(sp.n, sp.seed, sp.blocked, sp.reopen, sp.poke)
 		run.Eval(1)
 		mu.Lock()
 		chunks += r.Chunks
@@ -309,6 +324,9 @@ func fragments(run *ev.Run, established *int32) {
 		}
 		if sp.reopen {
 			reopenN++
+		}
+		if sp.poke {
+			pokeN++
 		}
 		mu.Unlock()
 		switch {
@@ -344,6 +362,7 @@ func fragments(run *ev.Run, established *int32) {
 	run.Set("fragment_trials", trials)
 	run.Set("fragment_trials_with_a_request_blocked_in_Write", blockedN)
 	run.Set("fragment_trials_on_a_transport_reopened_after_a_session_that_ended_inside_a_frame", reopenN)
+	run.Set("fragment_trials_with_Open_called_on_the_open_transport_while_requests_are_in_flight", pokeN)
 	run.Set("fragment_pieces_fed", chunks)
 	run.Set("fragment_size_prefixes_split_across_reads", splits)
 	run.Set("fragment_response_bytes", bytes)
